@@ -126,11 +126,12 @@ def run_coeffs(ctx, fs):
         iw, mw = impl["c%d" % it]["w"], model["c%d" % it]["w"]
         # the binary32 evaluation the typed trees (Gen_CoeffsFl) prescribe, on rationals: the implementation's weights must be
         # exactly the unfused or the contracted evaluation (the harness build does not contract; the theorems cover both)
-        flw = rnd.fl_weights(it, fs)
+        nfl = min(len(fs), 4000)          # the extracted evaluator takes 4 ms per cubic offset: first 4000 samples (thorough: 40000)
+        flw = rnd.fl_weights(it, fs[:nfl])
         for k, f in enumerate(fs):
             wi = [parse_c(t) for t in iw[k]]
             wm = [parse_q(t) for t in mw[k]]
-            if wi != flw[k][0] and wi != flw[k][1]:
+            if k < nfl and wi != flw[k][0] and wi != flw[k][1]:
                 dis.append(dict(case=dict(kind="coeffs", it=it, f=fhex(f)),
                                 detail=dict(impl=[str(x) for x in wi], typed_tree_binary32=[str(x) for x in flw[k][0]],
                                             what="weights differ from the binary32 evaluation of the typed expression trees"),
